@@ -204,3 +204,15 @@ Example C11_gopath_nonvacuous :
   path_loop 30 "/Base///Zone 1/../" 0 = inr [("Base", 0); ("Zone 1", 0); ("..", 0)] /\
   seg_ok "Zone 1".
 Proof. exact spelled_example. Qed.
+
+(* ---- resolvers that choose a child by a LABEL PARAMETER (cgi_model_address ...) address the child the goto table pushes
+   for that label: kernel-evaluated on the regenerated tables, and what it means for any tables *)
+Theorem C11_selectors_ok : sel_table_ok Gen_C11.goto_table Gen_C11.sel_table = true.
+Proof. vm_compute. reflexivity. Qed.
+Print Assumptions C11_selectors_ok.
+
+Theorem C11_selector_addresses_goto_child : forall tbl t, sel_table_ok tbl t = true ->
+  forall fn P L f, In (fn, P, L, f) t -> goto_field tbl P L = Some f.
+Proof. exact selector_addresses_goto_child. Qed.
+Print Assumptions C11_selector_addresses_goto_child.
+
